@@ -14,10 +14,13 @@ from harness import families as F, pipeline as P
 HNAME = "harness.limits"
 WIDTH_CTX = ["stmt", "stmt_nested", "linecomment", "linecomment_tab", "eol_comment", "block1", "block_first",
              "block_mid", "block_last", "block_mid_tab", "proto_no_newline", "linecomment_no_newline", "define_string",
-             "in_second_function"]
-LINES_CTX = ["plain", "with_decls", "with_blocks", "second_function", "nested_blocks"]
-COUNT_CTX = {"funcs": ["plain", "with_protos"], "params": ["definition", "prototype", "static_definition"],
-             "vars": ["plain", "with_array", "second_function"]}
+             "in_second_function", "header_proto", "header_define", "header_member", "global_decl", "ctrl_line", "decl_line",
+             "block_after_function", "eol_comment_block"]
+LINES_CTX = ["plain", "with_decls", "with_blocks", "second_function", "nested_blocks", "wrapped_call2", "wrapped_call3",
+             "wrapped_condition", "wrapped_assign_in_block", "else_chain"]
+COUNT_CTX = {"funcs": ["plain", "with_protos", "with_globals"],
+             "params": ["definition", "prototype", "static_definition", "second_function", "header_prototype", "pointer_params"],
+             "vars": ["plain", "with_array", "second_function", "with_pointers", "after_five_line_function"]}
 
 
 def chunks(tier):
@@ -98,6 +101,49 @@ def build(limit, ctx, n, ex):
                 b.ident(w - 9)
                 b.add(";\n")
             b.add("\treturn (x);\n}\n")
+        elif ctx in ("header_proto", "header_define", "header_member"):
+            name = "t.h"
+            b.items = []
+            b.line = 1
+            header(b, name)
+            b.add("#ifndef T_H\n# define T_H\n\n")
+            if ctx == "header_define":
+                target = b.line
+                b.add('# define MSG "')          # 14
+                b.filler(w - 15, CC.replace("'", ""))
+                b.add('"\n\n')
+                b.add("int\tfoo(void);\n")
+            elif ctx == "header_member":
+                b.add("typedef struct s_pt\n{\n")
+                target = b.line
+                b.add("\tint\t")                 # col 9
+                b.ident(w - 9)
+                b.add(";\n}\tt_pt;\n\nint\tfoo(void);\n")
+            else:
+                target = b.line
+                b.add("int\t")
+                b.ident(w - 11)
+                b.add("(void);\n")
+            b.add("\n#endif\n")
+        elif ctx == "global_decl":
+            target = b.line
+            b.add("static int\t")              # 'static int' 10 -> tab to col 13
+            b.add("g_")
+            b.ident(w - 15)
+            b.add(";\n\n" + SIMPLE_FUNC)
+        elif ctx in ("ctrl_line", "decl_line"):
+            b.add("int\tmain(void)\n{\n")
+            if ctx == "decl_line":
+                target = b.line
+                b.add("\tint\t")                # col 9
+                b.ident(w - 9)
+                b.add(";\n\n\treturn (0);\n}\n")
+            else:
+                b.add("\tint\tx;\n\n\tx = 0;\n")
+                target = b.line
+                b.add("\twhile (x < ")            # 4 + 11 = 15
+                b.ident(w - 16)
+                b.add(")\n\t\tx++;\n\treturn (x);\n}\n")
         elif ctx == "define_string":
             target = b.line
             b.add('#define MSG "')          # 13
@@ -146,6 +192,18 @@ def build(limit, ctx, n, ex):
                 target = b.line
                 b.filler(w - 3, CC)
                 b.add(" */\n")
+            elif ctx == "block_after_function":
+                b.add(SIMPLE_FUNC + "\n/*\n")
+                target = b.line
+                b.add("** ")
+                b.filler(w - 3, CC)
+                b.add("\n*/\n")
+                return name, b.items, [("LINE_TOO_LONG", target, w > 80)], target
+            elif ctx == "eol_comment_block":
+                target = b.line
+                b.add("int\tmain(void); /* ")  # 19
+                b.filler(w - 22, CC)
+                b.add(" */\n")
             elif ctx == "proto_no_newline":
                 b.add(SIMPLE_FUNC + "\n")
                 target = b.line
@@ -159,7 +217,7 @@ def build(limit, ctx, n, ex):
                 b.add("// ")
                 b.filler(w - 3, CC)
                 return name, b.items, [("LINE_TOO_LONG", target, w > 80)], target
-            b.add("\n" + SIMPLE_FUNC if ctx != "eol_comment" else "\n" + "int\tmain(void)\n{\n\treturn (0);\n}\n")
+            b.add("\n" + SIMPLE_FUNC)
         return name, b.items, [("LINE_TOO_LONG", target, w > 80)], target
     if limit == "lines":
         if ctx == "second_function":
@@ -180,6 +238,19 @@ def build(limit, ctx, n, ex):
             b.add("\twhile (1)\n\t{\n\t\tif (1)\n\t\t{\n")
             body += 4
             close = ["\t\t}\n", "\t}\n"]
+        if ctx in ("wrapped_call2", "wrapped_call3"):
+            k = int(ctx[-1])
+            b.add("\tfoo(1,\n" + "".join("\t\t%d,\n" % i for i in range(k - 2)) + "\t\t2);\n")
+            body += k
+        if ctx == "wrapped_condition":
+            b.add("\tint\tq;\n\n\tq = 0;\n\twhile (q < 3\n\t\t&& q != 7)\n\t\tq++;\n")
+            body += 6
+        if ctx == "wrapped_assign_in_block":
+            b.add("\tint\tq;\n\n\tq = 0;\n\tif (q)\n\t{\n\t\tq = 1\n\t\t\t+ 2;\n\t}\n")
+            body += 8
+        if ctx == "else_chain":
+            b.add("\tif (1)\n\t\tfoo(1);\n\telse if (2)\n\t\tfoo(2);\n\telse\n\t\tfoo(3);\n")
+            body += 6
         depth = 1 + len(close)
         while body < n - 1 - len(close):
             b.add("\t" * depth + "foo(")
@@ -195,9 +266,10 @@ def build(limit, ctx, n, ex):
         assert body == n, (body, n)
         return name, b.items, [("TOO_MANY_LINES", None, n > 25)], None
     if limit == "funcs":
-        names = []
         if ctx == "with_protos":
-            pass
+            b.add("int\tpa(void);\nint\tpb(int a);\n\n")
+        if ctx == "with_globals":
+            b.add("static int\tg_a = 0;\n\n")
         for i in range(n):
             if i:
                 b.add("\n")
@@ -212,10 +284,29 @@ def build(limit, ctx, n, ex):
                     b.add(", ")
                 b.add("int ")
                 b.ident(2)
+        if ctx == "pointer_params":
+            def plist():      # noqa: F811
+                for i in range(n):
+                    if i:
+                        b.add(", ")
+                    b.add("char *")
+                    b.ident(1)
         if ctx == "prototype":
             b.add("int\tfoo(")
             plist()
             b.add(");\n\n" + SIMPLE_FUNC)
+        elif ctx == "header_prototype":
+            name = "t.h"
+            b.items = []
+            b.line = 1
+            header(b, name)
+            b.add("#ifndef T_H\n# define T_H\n\nint\tfoo(")
+            plist()
+            b.add(");\n\n#endif\n")
+        elif ctx == "second_function":
+            b.add("int\tfirst(int a, int b)\n{\n\treturn (a + b);\n}\n\nint\tfoo(")
+            plist()
+            b.add(")\n{\n\treturn (0);\n}\n")
         else:
             b.add(("static " if ctx == "static_definition" else "") + "int\tfoo(")
             plist()
@@ -224,9 +315,11 @@ def build(limit, ctx, n, ex):
     if limit == "vars":
         if ctx == "second_function":
             b.add("int\tfirst(void)\n{\n\tint\tq;\n\n\tq = 0;\n\treturn (q);\n}\n\n")
+        if ctx == "after_five_line_function":
+            b.add("int\tfirst(void)\n{\n\tint\ta;\n\tint\tb;\n\tint\tc;\n\tint\td;\n\tint\te;\n\n\treturn (0);\n}\n\n")
         b.add("int\tmain(void)\n{\n")
         for i in range(n):
-            b.add("\tint\t")
+            b.add("\tint\t" if ctx != "with_pointers" else "\tchar\t*")
             b.ident(3)
             if ctx == "with_array" and i == 1:
                 b.add("[4]")
